@@ -37,14 +37,14 @@ def gen_tables(d, rep, fmts, maxlen, maxloc, rich):
     return beh
 
 
-def rec_xdis(d, mode, items, tag, nproc=14):
+def rec_xdis(d, mode, items, tag, nproc=14, env=None):
     jobs, outs = [], []
     for i, ch in enumerate(bcrun.chunks(items, nproc)):
         inp = d / ("in-%s-%d" % (tag, i))
         inp.write_text(json.dumps(ch) if mode == "files" else "\n".join(json.dumps(b) for b in ch) + "\n")
         out = d / ("ltrec-%s-%d.ndjson" % (tag, i))
         outs.append(out)
-        jobs.append(lambda inp=inp, out=out: lib.run_py(lib.MAIN_HOST, lib.HARNESS / "rec_lines.py", [out, mode, inp], timeout=3000))
+        jobs.append(lambda inp=inp, out=out: lib.run_py(lib.MAIN_HOST, lib.HARNESS / "rec_lines.py", [out, mode, inp], timeout=3000, env=env))
     bcrun.run_parallel(jobs)
     recs = []
     for o in outs:
@@ -93,7 +93,7 @@ def pipeline(pid, tier, rep, extra_judges=()):
     prefix = pid + "."
     fmts = FMTS if pid == "C05" else ["loc311", "loc313"]
     beh = gen_tables(d, rep, fmts, 2 if quick else 3, 2, 0 if quick else 1)
-    gen_x = rec_xdis(d, "gen", beh, "g")
+    gen_x = rec_xdis(d, "gen", beh, "g", env=None if quick else {"VERIF_GEN_TABLES": "all"})
     gen_o = []
     jobs = []
     for f in fmts:
@@ -168,7 +168,7 @@ def replay_case(pid, body, rep):
     ident = body["case"]["id"]
     if ident.startswith("gen:"):
         _, fmt, ver, clen, first, hx = ident.split(":")
-        recs = [r for r in rec_xdis(d, "gen", [{"fmt": fmt, "tab": list(bytes.fromhex(hx)), "clen": int(clen), "first": int(first)}], "r", nproc=1)
+        recs = [r for r in rec_xdis(d, "gen", [{"fmt": fmt, "tab": list(bytes.fromhex(hx)), "clen": int(clen), "first": int(first), "tables": [ver]}], "r", nproc=1)
                 if r["id"] == ident]
     else:
         recs = [r for r in rec_xdis(d, "files", [ident.split("#")[0]], "r", nproc=1) if r["id"] == ident]
